@@ -216,7 +216,5 @@ Theorem clone_has_the_callbacks_of_its_original md t g :
   forall w, In w (resolve_group (md_providers (clone_md md)) g (trans_specs t g) (md_rounds (clone_md md))) <->
             In w (resolve_group (md_providers md) g (trans_specs t g) (md_rounds md)).
 Proof.
-  intros Hg. change (md_providers (clone_md md)) with (md_providers md).
-  apply transition_wrappers_independent_of_rounds; auto.
-  intros p. cbn [clone_md md_rounds with_rounds with_erounds concat]. rewrite app_nil_r, uniq_in. simpl. tauto.
+  intros Hg w. unfold clone_md. tauto.
 Qed.
